@@ -183,11 +183,29 @@ let run (fn : string) (bs : coq_N list) (arg : int) : string * string =
   (* ---- stage 3: SEI / AAC / Annex B (wrappers of C16AuxModel, models of C17 / C18 / C14) *)
   | "sei.ParseCEA608" ->
     show1 (fun ((f1, f2), _) -> hex_of_bytes f1 ^ ";" ^ hex_of_bytes f2) (C16AuxModel.parse_cea608_p bs)
-  | "sei.DecodeUserDataRegisteredSEI" -> show1 (fun _ -> "") (C16AuxModel.decode_registered_p bs)
-  | "sei.ExtractCEA608sei" -> show1 (fun _ -> "") (C16AuxModel.extract_cea608_p bs)
-  | "sei.DecodeUserDataUnregisteredSEI" -> show1 (fun _ -> "") (C16AuxModel.decode_unregistered_p bs)
-  | "sei.DecodeMasteringDisplayColourVolumeSEI" -> show1 (fun _ -> "") (C16AuxModel.mdcv_decode_p bs)
-  | "sei.DecodeContentLightLevelInformationSEI" -> show1 (fun _ -> "") (C16AuxModel.cll_decode_p bs)
+  (* value "1": String() of the decoded message stays within the bound of the render-cost theorems; the model side
+     evaluates the partial operations String() performs (C16SeiStrModel.pass_string_cost) *)
+  | "sei.DecodeUserDataRegisteredSEI" ->
+    (match C16AuxModel.decode_registered_p bs with
+     | Ok (m, _) -> show1 (fun _ -> "1") (C16SeiStrModel.pass_string_cost m)
+     | r -> show1 (fun _ -> "") r)
+  | "sei.ExtractCEA608sei" ->
+    (match C16AuxModel.extract_cea608_p bs with
+     | Ok (m, _) -> show1 (fun _ -> "1") (C16SeiStrModel.pass_string_cost m)
+     | r -> show1 (fun _ -> "") r)
+  | "sei.DecodeUserDataUnregisteredSEI" ->
+    (match C16AuxModel.decode_unregistered_p bs with
+     | Ok m -> show1 (fun _ -> "1") (C16SeiStrModel.pass_string_cost m)
+     | r -> show1 (fun _ -> "") r)
+  (* decode, then Payload() through the partial slice operations of C16SeiStrModel, and Size() *)
+  | "sei.DecodeMasteringDisplayColourVolumeSEI" ->
+    (match C16AuxModel.mdcv_decode_p bs with
+     | Ok m -> show1 (fun pl -> hex_of_bytes pl ^ ";24") (C16SeiStrModel.mdcv_payload_p m)
+     | r -> show1 (fun _ -> "") r)
+  | "sei.DecodeContentLightLevelInformationSEI" ->
+    (match C16AuxModel.cll_decode_p bs with
+     | Ok m -> show1 (fun pl -> hex_of_bytes pl ^ ";4") (C16SeiStrModel.cll_payload_p m)
+     | r -> show1 (fun _ -> "") r)
   | "sei.DecodeTimeCodeSEI" -> show1 (fun cs -> string_of_int (L.length cs)) (C17TypedModel.tc_decode bs)
   | "sei.DecodePicTimingAvcSEIHRD" ->
     let fld k = n_of_int ((arg lsr k) land 31) in
